@@ -77,6 +77,7 @@ struct AreaD {
     uint32_t base = 0, size = 0;
     bool readable = true, writeable = true;   // flag bits
     bool has_write = true;                    // write callback present
+    bool has_read = true;                     // read callback present (areas without one hold no registers: typed access needs the callback)
     bool skip_defaults = false;
     bool membacked = true;                    // reg_mem_read/write on ->mem, otherwise harness callbacks on a harness array
     uint32_t end() const { return base + size; }
@@ -108,7 +109,7 @@ struct TableD {
 
 inline std::string ser(const TableD &t) {
     std::string s = vp::fmt("table %d\n", (int)t.big);
-    for (auto &a : t.areas) s += vp::fmt("area %u %u %d %d %d %d %d\n", a.base, a.size, (int)a.readable, (int)a.writeable, (int)a.has_write, (int)a.skip_defaults, (int)a.membacked);
+    for (auto &a : t.areas) s += vp::fmt("area %u %u %d %d %d %d %d %d\n", a.base, a.size, (int)a.readable, (int)a.writeable, (int)a.has_write, (int)a.skip_defaults, (int)a.membacked, (int)a.has_read);
     for (auto &r : t.regs) s += vp::fmt("reg %s %u %s %llu %llu %d %llu\n", type_name[r.type], r.addr, ckind_name[r.ckind], (unsigned long long)r.lo, (unsigned long long)r.hi, r.cb, (unsigned long long)r.def);
     return s;
 }
@@ -121,7 +122,7 @@ inline bool parse(const std::string &text, TableD &t, std::vector<std::string> &
         if (w[0] == "table" && w.size() >= 2) { t.big = atoi(w[1].c_str()); have = true; }
         else if (w[0] == "area" && w.size() >= 8) {
             AreaD a; a.base = (uint32_t)strtoul(w[1].c_str(), 0, 10); a.size = (uint32_t)strtoul(w[2].c_str(), 0, 10);
-            a.readable = atoi(w[3].c_str()); a.writeable = atoi(w[4].c_str()); a.has_write = atoi(w[5].c_str()); a.skip_defaults = atoi(w[6].c_str()); a.membacked = atoi(w[7].c_str());
+            a.readable = atoi(w[3].c_str()); a.writeable = atoi(w[4].c_str()); a.has_write = atoi(w[5].c_str()); a.skip_defaults = atoi(w[6].c_str()); a.membacked = atoi(w[7].c_str()); a.has_read = w.size() >= 9 ? atoi(w[8].c_str()) : 1;
             t.areas.push_back(a);
         } else if (w[0] == "reg" && w.size() >= 8) {
             RegD r; r.type = -1;
